@@ -1,9 +1,65 @@
-(* C55: FastCGI requests and responses are encoded faithfully.  Property theorems only. *)
+(* C55: FastCGI requests and responses are encoded faithfully.  Property theorems only.
+   Model: model/Fcgi.v (bfe_fcgi/fcgi_client.go after the repair of writePairs, /repo commit 7cc6931). *)
 From Coq Require Import List ZArith Bool.
-From Bfe Require Import lib.Val lib.Bytes model.Fcgi run.RunC55.
+From Bfe Require Import lib.Val lib.Bytes model.Fcgi proofs.FcgiProofs run.RunC55.
 Import ListNotations.
 Open Scope Z_scope.
 
-Example C55_placeholder : run_C55 (VZ 0) = VErr 0.
-Proof. exact eq_refl. Qed.
-Print Assumptions C55_placeholder.
+(* C55_pairs_roundtrip / C55_body_roundtrip: for EVERY parameter list (names and values of any length below 2^31,
+   including values that do not fit one record and names longer than a record) and EVERY body, the bytes
+   FCGIClient.Do writes are a well-formed FastCGI record sequence (request id 1 throughout) which the
+   specification's decoders read as: BEGIN_REQUEST(responder, flags 0); a PARAMS stream, closed by an empty
+   record, whose name-value pairs are exactly the parameters; a STDIN stream, closed by an empty record, whose
+   content is exactly the body; and nothing else.  (Before the repair this was false: values were cut so that
+   8+|name|+|value| <= 65500, and names longer than 65492 bytes crashed the client.) *)
+Theorem C55_request_roundtrip : forall ps body,
+  Forall (fun kv => blen (fst kv) < 2^31 /\ blen (snd kv) < 2^31) ps ->
+  spec_request (do_written ps body) = Some (ps, body).
+Proof. exact request_roundtrip. Qed.
+Print Assumptions C55_request_roundtrip.
+
+(* C55_payload_le_65535: every record of the PARAMS and STDIN streams carries at most 65500 <= 65535 bytes,
+   so the 16-bit contentLength field never wraps. *)
+Theorem C55_payload_le_65535 : forall ps body,
+  Forall (fun content => blen content <= 65500) (params_records ps ++ stdin_records body).
+Proof. exact records_bounded. Qed.
+Print Assumptions C55_payload_le_65535.
+
+(* C55_stdout_only is REFUTED for the code as it is (known finding 1): the stream handed to the HTTP response
+   parser contains the content of every record type.  Witness: "ok" on STDOUT followed by "ERR" on STDERR. *)
+Theorem C55_stdout_only_refuted :
+  exists resp, spec_stdout resp = [111; 107] /\ fst (client_stream resp) = [111; 107; 69; 82; 82]
+               /\ has_other_content resp = true.
+Proof. exact stdout_only_refuted_lemma. Qed.
+Print Assumptions C55_stdout_only_refuted.
+
+(* C55_stdout_only_partial: for every responder byte sequence (well-formed or not) in which no record other than
+   STDOUT carries content, the response stream is exactly the STDOUT content that precedes END_REQUEST
+   within the well-formed prefix of the reply. *)
+Theorem C55_stdout_only_partial : forall resp,
+  has_other_content resp = false -> fst (client_stream resp) = spec_stdout resp.
+Proof. exact stdout_only_partial. Qed.
+Print Assumptions C55_stdout_only_partial.
+
+(* C55_end_request: once the reply contains a complete END_REQUEST record the reader reports a clean EOF. *)
+Theorem C55_end_request : forall resp,
+  existsb (fun r => f_type r =? T_END) (fst (spec_records resp)) = true -> snd (client_stream resp) = 0.
+Proof. exact end_request_eof. Qed.
+Print Assumptions C55_end_request.
+
+(* The executable property the harness evaluates on the implementation holds of the model on every input outside
+   the listed finding class (kf_C55 = 0, i.e. no content in non-STDOUT records). *)
+Theorem C55_prop_of_model : forall ps body bc resp,
+  Forall (fun kv => blen (fst kv) < 2^31 /\ blen (snd kv) < 2^31) ps ->
+  kf_C55 (in_C55 ps body bc resp) = 0 ->
+  prop_C55 (in_C55 ps body bc resp) (run_C55 (in_C55 ps body bc resp)) = true.
+Proof. exact prop_C55_of_model. Qed.
+Print Assumptions C55_prop_of_model.
+
+(* Non-vacuity: two parameters (one with a 200-byte value: 4-byte length form), a body, a reply with END_REQUEST. *)
+Example C55_nonvacuous :
+  let ps := [([72; 79; 83; 84], [97]); ([81], repeat 7 200)] in
+  Forall (fun kv => blen (fst kv) < 2^31 /\ blen (snd kv) < 2^31) ps
+  /\ kf_C55 (in_C55 ps [1; 2; 3] 7 [1;6;0;1;0;2;0;0;111;107; 1;3;0;1;0;8;0;0;0;0;0;0;0;0;0;0]) = 0
+  /\ run_C55 (in_C55 ps [1; 2; 3] 7 [1;6;0;1;0;2;0;0;111;107; 1;3;0;1;0;8;0;0;0;0;0;0;0;0;0;0]) <> VErr 0.
+Proof. exact nonvacuous_lemma. Qed.
